@@ -144,3 +144,7 @@ Proof.
   - f_equal. replace (n + 20) with ((n - 4) + 24) by lia.
     rewrite <- !Z.shiftr_spec by lia. rewrite He. reflexivity.
 Qed.
+
+Lemma set_opcode_then_opcode_lemma : forall m o, 0 <= o < 16 ->
+  m_opcode (m_set_opcode m o) = o /\ Z.land (mflags (m_set_opcode m o)) 34815 = Z.land (mflags m) 34815.
+Proof. intros. split; [apply set_opcode_opcode; assumption|apply set_opcode_keeps_flags]. Qed.
